@@ -194,7 +194,7 @@ pub fn hostile_line_widths(r: &mut Rng, nonfinite: bool) -> Vec<f64> {
 /// usize-valued fragments (as f64) for the "never Err with usize inputs" clause.
 pub fn usize_frags(r: &mut Rng, max_len: usize) -> Vec<Frag> {
     let n = len(r, max_len);
-    let big: &[usize] = &[usize::MAX, usize::MAX - 1, 1 << 53, (1 << 53) + 1, u32::MAX as usize, 1 << 40];
+    let big: &[usize] = &[usize::MAX, usize::MAX - 1, crate::rng::P53, crate::rng::P53_PLUS_1, u32::MAX as usize, crate::rng::P40];
     let val = |r: &mut Rng| -> f64 {
         (if r.chance(1, 5) { *r.pick(big) } else { r.below(30) }) as f64
     };
